@@ -24,6 +24,7 @@ package car
 //@   ensures def [C05,C07]: result == (h.IndexOffset != 0)
 
 //@ func (Characteristics).WriteTo
+//@   effect
 //@   modifies wn(w)
 //@   ensures count [C05,C16]: wn(w) == old(wn(w)) + n && 0 <= n && n <= 16
 //@   ensures full [C05]: err == nil ==> n == 16
@@ -44,6 +45,7 @@ package car
 //@   ensures flag [C05]: result == (fullyidx(c.Hi) == 1)
 
 //@ func (Header).WriteTo
+//@   effect
 //@   modifies wn(w)
 //@   ensures count [C05,C16]: wn(w) == old(wn(w)) + n && 0 <= n && n <= 40
 //@   ensures full [C05]: err == nil ==> n == 40
@@ -102,3 +104,6 @@ package car
 //@   call[append#0] assert record_cid [C03]: arg1[0].Cid == c
 //@   call[append#0] assert identity_filter [C03]: o.StoreIdentityCIDs || mhtype(c) != 0
 //@   call[append#0] assert cid_size [C03,C04]: cidLen <= o.MaxIndexCidSize
+//@   let sectionLen, verr := call[varint.ReadUvarint#0]
+//@   call[Index.Load#0] assert scan_complete [C03]: verr == io.EOF || (verr == nil && sectionLen == 0 && o.ZeroLengthSectionAsEOF) || (dataSize != 0 && wrap_s64(pos(reader) - sbase(reader)) - dataOffset >= dataSize)
+//@   call[Index.Load#0] assert args [C03]: ref(arg0) == ref(idx) && ref(arg1) == ref(records)
